@@ -12,8 +12,8 @@
   particular a list and an object — is `InvalidOpTypes` naming the operator and both kinds in operand order.
 -/
 import SeedProofs.C16
-namespace Seed.C16R
-open Seed
+namespace Seed
+namespace C16R
 open Gen (Leaf)
 
 /-! ## `t[a:b] = rhs` -/
@@ -88,9 +88,10 @@ theorem range_assign_rejects (n : Nat) (σ σ1 : State) (sc : List Addr) (names 
     (∀ nm id, go (.builtin nm id) = errAt loc (Leaf.RangeIndexAssignOnNonIndexable .BuiltinFunc) σ1) := by
   intro go
   have k := fun v => (range_assign_rhs_kinds n σ σ1 sc names ex start stop loc ⟨v, s⟩ tgt decl a h ht).2.2
-  exact ⟨k .null (by decide) (by decide), fun b => k (.bool b) (by decide) (by decide),
-    fun i => k (.int i) (by decide) (by decide), fun o => k (.obj o) (by decide) (by decide),
-    fun f => k (.func f) (by decide) (by decide), fun nm id => k (.builtin nm id) (by decide) (by decide)⟩
+  exact ⟨k .null (by simp [Val.kind]) (by simp [Val.kind]), fun b => k (.bool b) (by simp [Val.kind]) (by simp [Val.kind]),
+    fun i => k (.int i) (by simp [Val.kind]) (by simp [Val.kind]), fun o => k (.obj o) (by simp [Val.kind]) (by simp [Val.kind]),
+    fun f => k (.func f) (by simp [Val.kind]) (by simp [Val.kind]),
+    fun nm id => k (.builtin nm id) (by simp [Val.kind]) (by simp [Val.kind])⟩
 
 /-- an instance of the hypotheses: the target `xs` holds the list cell 1 -/
 def σx : State := ⟨#[.scope [(c!"xs", SVal.plain (.list 1), (1, 0))], .list [SVal.plain (.int 1), SVal.plain (.int 2), SVal.plain (.int 3)],
@@ -290,4 +291,5 @@ example :
     (run 300 c!"t.sd" c!"a := [];\no := {};\nf := fn () {};\nprint(a === a);\nprint(o === o);\nprint(f === f);\nprint(a !== []);\n").out =
       [c!"true", c!"true", c!"true", c!"true"] := by decide +kernel
 
-end Seed.C16R
+end C16R
+end Seed
